@@ -789,6 +789,7 @@ func checkC13(r *verdict.Run) {
 	inputs = append(inputs, c13MultiEach(names)...)
 	inputs = append(inputs, c13Fragmented()...)
 	inputs = append(inputs, c13CraftedPayloads()...)
+	inputs = append(inputs, c13UnknownCommands()...)
 	rng.Shuffle(len(inputs), func(i, j int) { inputs[i], inputs[j] = inputs[j], inputs[i] })
 	r.Set("inputs_raw_cmd_seq", fmt.Sprintf("%d inputs over %d command tokens", len(inputs), len(names)))
 	for i := 0; i < 4 && i < len(inputs); i++ {
@@ -1076,4 +1077,23 @@ func c13InspectBlocked(r *verdict.Run) {
 		}
 	}
 	r.Distinct("inspect-blocked")
+}
+
+// c13UnknownCommands: commands the emulator does not know (module commands of a real server, typos), with arguments of
+// every length around the sizes at which an error message would cut its quotation, and with more arguments behind a
+// long one: each gets exactly one error reply.
+func c13UnknownCommands() []hostileInput {
+	var out []hostileInput
+	for _, name := range []string{"JSON.SET", "nosuchcommand", "FT.SEARCH", "X", strings.Repeat("LONGNAME", 40)} {
+		for _, l := range []int{0, 1, 30, 60, 100, 118, 120, 122, 124, 125, 126, 127, 128, 129, 130, 131, 132, 200, 255, 256, 257, 1000, 5000, 70000} {
+			for _, behind := range []int{0, 1, 2, 5, 40} {
+				args := []string{name, "doc", strings.Repeat("j", l)}
+				for k := 0; k < behind; k++ {
+					args = append(args, []string{"NX", "", "with space", "a\r\nb", strings.Repeat("z", 64)}[k%5])
+				}
+				out = append(out, hostileInput{kind: "cmd", cmds: [][]string{args}, label: "unknown-command"})
+			}
+		}
+	}
+	return out
 }
